@@ -51,6 +51,9 @@ def run(ck, P):
                     if any(a in fact_atoms for (a, _p) in lm.atoms(blk.term["cond"], True)) and blk.id in f.dominators()[ev.block.id]:
                         anchor = blk.events[-1] if blk.events else ev
                         expanded.add(ex.at(anchor, blk.term["cond"]))
+                        # the value a local holds at the test itself (`elem = q->head; … if (q->tail == elem)`), even if the field it
+                        # was read from is re-assigned later
+                        expanded.add(rules.Expander(f, stable=False).at(anchor, blk.term["cond"]))
             for c in null_arms:
                 conds = set(expanded)
                 if c is not None:
